@@ -24,13 +24,15 @@ PROGRAMS = [
     "1 2 3 4 `[9]", "1 2 3 4 ``[9]", "1 2 3 4 5 ```[]", "1 2 `[8] drop 5 6 ``[9]",
     "(\"abc\" elem, \"xyz\" relem) pos", "[1, 2, 3] (elem (== 2) || 7)", "(1, 2) (|A| [A, A (1 add ?(4 ?lt))*])",
     "(1, 0, 2) 10 swap div", "dup dup add mul",
+    # binders that take more values than a shallow stack has
+    "let A B := 2; [A, B]", "let A B C := (1, 2) 3; [A, B, C]", "(|A B| [A, B])", "2 (|A B| A B add)", "let A B := dup; A B add", "[|A B| A, B]", "?(|A B| A B ?lt) 5",
 ]
 DW_PROGRAMS = [
     "entry parent offset", "[entry] relem parent offset", "entry (|E| E parent (|P| P child (== E))) offset", "unit (|U| U entry parent offset)",
     "entry offset", "entry ?root name", "unit root child label", "entry (|E| [E child] length)", "entry attribute label",
     "entry ?(child) (|A| A child offset)", "[entry] length", "entry parent* offset", "symbol name", "entry @AT_name",
 ]
-INPUTS = ["1", "3", "7 2"]
+INPUTS = ["", "3", "7 2"]          # (the empty stack: many programs fail on it - what a failed execution leaves behind shows in the next)
 DW_INPUTS = ["", "", ""]          # the Dwarf value alone (three separately opened values; each may be reused)
 OTHERS = ["1 2 3 `[7]", "1 2 3 ``[7]", "(1, 2)*", "let X := 5; X", '"%( 1, 2 %)"', "1 2 3 4 ```[]", "{1} apply",
           # queries that are rejected, each for another reason (whatever the compiler noted about them must be gone)
@@ -45,7 +47,7 @@ def gen_history(rng, n_sets, n_stacks, length, inputs=None, others=None):
     """random well-formed history; returns token list and, per result set, (query A/B, stack id)"""
     inputs = inputs or INPUTS
     OTHERS = others or globals()["OTHERS"]
-    toks = ["s%d=%s" % (j, hexs(inputs[j])) for j in range(n_stacks)]
+    toks = [("s%d@%s=%s" % (j, hexs(inputs[j][0]), hexs(inputs[j][1]))) if isinstance(inputs[j], tuple) else ("s%d=%s" % (j, hexs(inputs[j]))) for j in range(n_stacks)]
     live, info = [], {}
     nxt = 0
     for _ in range(length):
@@ -174,11 +176,16 @@ def run(ctx):
     progs += [(p, bad_obj) for p in ("entry parent offset", "entry [|E| E offset, E parent offset]", "entry offset", "raw entry parent offset",
                                      "[entry] length", "unit root child parent label", "entry (|E| E parent (|P| P child (== E))) offset")]
 
+    # one compiled query over files of different machines (what the query learnt about one file must not show on the next)
+    T_ = os.path.join(common.REPO, "tests")
+    MIXF = [os.path.join(T_, n_) for n_ in ("y.o", "y-mips.o", "a1.out")]
+    MIXP = ['symbol binding "%s"', 'symbol label "%s"', '[symbol (binding, label)] "%s"', "symbol ?(binding == STB_MIPS_SPLIT_COMMON) pos", "symbol binding", "symbol label", "symbol [label, binding, visibility]", 'symbol "%s"', "symbol (|S| [S label, S binding])", "entry label", "[symbol binding] length"]
+    mixed = [(p_, "MIXED") for p_ in MIXP] if all(os.path.exists(x) for x in MIXF) else []
     # fresh runs: every (program, input) in its own process
     fresh_lines, fresh_key = [], []
-    for p, f in progs:
+    for p, f in progs + mixed:
         for j, inp in enumerate(INPUTS if f is None else DW_INPUTS):
-            fresh_lines.append(zw.enc(p, inq=inp, dw=f, t=5, max=300))
+            fresh_lines.append(zw.enc(p, inq=inp, dw=(MIXF[j] if f == "MIXED" else f), t=5, max=300))
             fresh_key.append((p, f, j))
     fresh = zw.run_cases(fresh_lines, chunk=1)
     ref = {}
@@ -186,10 +193,15 @@ def run(ctx):
         ref[key] = r
 
     hist_lines, meta = [], []
-    for p, f in progs:
+    for p, f in progs + mixed:
         for _ in range(3 if quick else 12):
-            toks, info = gen_history(rng, 3, 3, rng.choice([6, 10, 16, 30, 60]), None if f is None else DW_INPUTS, None if f is None else OTHERS + dw_others * 2)
-            hist_lines.append(zw.enc(p, m="hist", script=",".join(toks), dw=f, t=10))
+            if f == "MIXED":
+                order = rng.sample(range(3), 3)
+                toks, info = gen_history(rng, 3, 3, rng.choice([10, 16, 30, 60]), [(MIXF[j_], "") for j_ in order], OTHERS)
+                info = {k_: (ab_, order[sj_]) for k_, (ab_, sj_) in info.items()}       # stack id -> which file it was opened from
+            else:
+                toks, info = gen_history(rng, 3, 3, rng.choice([6, 10, 16, 30, 60]), None if f is None else DW_INPUTS, None if f is None else OTHERS + dw_others * 2)
+            hist_lines.append(zw.enc(p, m="hist", script=",".join(toks), dw=(None if f == "MIXED" else f), t=10))
             meta.append((p, f, toks, info))
     # histories run many per process (so that statics / caches survive from one to the next)
     hres = zw.run_cases(hist_lines, jobs=4)
